@@ -240,3 +240,43 @@ PROPERTIES["C12"]["explanation"] += (" Node values and node weights of stochasti
 PROPERTIES["C14"]["rules"] += [guard.interpolation_axes_guard]
 PROPERTIES["C14"]["explanation"] += " The axis-order guard is evaluated on all 2080 (axis order of <= 4 names, interpolated subset) witnesses: it raises iff the interpolated axes are not the trailing axes, and the representation applies it unconditionally (R12 INTERPAXES)."
 PROPERTIES["C12"]["rules"] += [guard.interpolation_axes_guard]
+
+for _p in ("C17", "C05", "C01"):
+    PROPERTIES[_p]["rules"] += [qa.qa_restricted_from_ancestors]
+PROPERTIES["C17"]["explanation"] += " A variable is filter-restricted iff it is an ancestor of a filter in the DAG of all model functions (R2.QA7)."
+
+PROPERTIES["C15"]["rules"] += [ker.ker_gridclasses]
+PROPERTIES["C15"].setdefault("filter", {})["KER.gridclasses"] = lambda o: any(
+    k in o.key for k in ("Grid.get_coordinate", "Grid.to_jax", "floor"))
+PROPERTIES["C15"]["explanation"] += (" The grid classes' own get_coordinate / to_jax methods pass exactly (start, stop, n_points) to the "
+                                     "coordinate helpers and return their result unchanged (KER gridclasses, coordinate methods only).")
+
+for _p in ("C01", "C08", "C18", "C20"):
+    PROPERTIES[_p]["rules"] += [bel.segment_paths]
+    PROPERTIES[_p]["explanation"] += " Every result path of a segment reducer goes through a segment operation (R14.SEGPATH): block reductions of a reshaped array are not accepted as a stand-in."
+
+PROPERTIES["C04"]["rules"] += [eff.order_taint]
+PROPERTIES["C04"].setdefault("filter", {})["R7.ORD"] = lambda o: ":hash" in o.key or "positive-control" in o.key or o.key.startswith("ORD:no-")
+PROPERTIES["C04"]["explanation"] += (" Nothing the simulation computes depends on PYTHONHASHSEED: no set order reaches an order-sensitive "
+                                     "sink and the built-in hash() is not used (R7.ORD, hash clauses).")
+
+PROPERTIES["C13"]["rules"] += [eff.effects]
+PROPERTIES["C13"].setdefault("filter", {})["R8.EFF"] = lambda o: o.key.startswith("EFF1")
+PROPERTIES["C13"]["explanation"] += (" The panel and its additional targets are a function of this call's arguments: no function keeps state "
+                                     "between calls (module-level caches, memoisation, stores on non-local objects) (R8.EFF1).")
+
+# own-property attachments found missing by the fifth seed round
+PROPERTIES["C05"]["filter"]["R3.PER"] = lambda o: o.key.startswith(("PER5", "PER1:solve", "PER3:solve:state_choice_space", "PER3:solve:emax"))
+PROPERTIES["C05"]["explanation"] += " The array of period t is computed on the state-choice space (and with the segments) of period t (PER3)."
+PROPERTIES["C09"]["rules"] += [ker.ker_random]
+PROPERTIES["C09"].setdefault("filter", {})["KER.random"] = lambda o: "_generate_simulation_keys" in o.key or "floor" in o.key
+PROPERTIES["C09"]["explanation"] += " The per-variable keys are generated from the ordered list of stochastic functions as in the reviewed form (KER random, key generation only)."
+PROPERTIES["C10"]["rules"] += [ker.ker_weights]
+PROPERTIES["C10"]["explanation"] += " The joint node weights are laid out over the stochastic variables in the caller's order (KER weights)."
+
+for _p in ("C10", "C19", "C11"):
+    PROPERTIES[_p]["rules"] += [sig.rebinding_by_name]
+    PROPERTIES[_p]["explanation"] += (" Every function with an explicit signature over *args/**kwargs rebinds by name with the list of that "
+                                      "signature and uses nothing else of the raw call (R10.BYNAME, 11 sites).")
+PROPERTIES["C11"]["filter"]["R3.PER"] = lambda o: o.key.startswith(("PER4", "PER3:solve:compute_ccv", "PER3:simulate:compute_ccv")) or "u_and_f" in o.key or "space_info" in o.key
+PROPERTIES["C11"]["explanation"] += " The continuation-value function used in period t is the one built for period t (PER3 compute_ccv)."
